@@ -82,6 +82,50 @@ CLAIMED['C07'] = dict(
     design='5/C07',
     note='Trusted: Lean kernel; SHA-256 collision freedom. The positive claim rests on evaluation until C07_injective is proved. Known findings F5a-d, F7.',
     technique='Lean 4 negative-witness theorems + bit-exact correspondence; positive direction by exhaustive pairing of a near-collision pool')
+_DIFFMODEL = ('Model = Lean port of DeepDiff._diff and its _diff_* family (dispatch, dict key sets and threshold shortcut, difflib pass vs pairwise pass, moved items, '
+              'set diff by DeepHash, add/remove fold) plus TextResult; tied to the code on every run by comparing the complete text view and the recorded opcodes of the real '
+              'DeepDiff with the compiled model (own difflib port and SHA-256) over generated pairs. ')
+CLAIMED['C02'] = dict(
+    text='Lean 4 theorem: for every well-formed value of any size/nesting, every ordered configuration (both alignment modes, every threshold in [0,1], private keys, '
+         'exclude/include paths), every reflexive alignment oracle and every hasher, the diff of a value with a structural copy is empty in every view and verbosity. '
+         'Lean negative witness for the spoofed-set case. ' + _DIFFMODEL + 'The converse (empty => ==) is decided on the implementation over single-edit neighbours and '
+         'random edits x view x verbosity x threshold x zip x cache_size x max_passes (and ignore_order for copies); its Lean theorem is not proved yet.',
+    design='5/C02',
+    note='Trusted: Lean kernel; difflib reflexivity (checked by the harness on the real difflib). Partial: empty=>equal is evaluated, not proved; input non-mutation, numpy and datetimes observed only. F5e.',
+    technique='Lean 4 proof (mutual structural induction over the value) + differential correspondence; converse by evaluation')
+CLAIMED['C03'] = dict(
+    text='Lean 4 theorems: in positional mode the model never takes the dictionary shortcut, never consults the alignment oracle and records no opcodes, i.e. it is the '
+         'pairwise recursion for every input. ' + _DIFFMODEL + 'The complete verbose text view of the implementation is compared with an independent ~70-line Python '
+         'specification of structural difference on every generated pair (types, values, paths, unified diffs recomputed and compared verbatim). The Lean statement '
+         'against a Lean copy of the specification is not proved yet.',
+    design='5/C03',
+    note='Trusted: Lean kernel; the Python specification and canonicaliser; difflib.unified_diff. Partial: model = spec is evaluated (implementation vs spec), not a theorem.',
+    technique='Lean 4 proof (oracle independence by mutual induction) + differential correspondence + executable specification')
+CLAIMED['C04'] = dict(
+    text='Lean 4 theorem: for every alignment oracle (valid or not), both modes, every threshold, whichever pass wins, any size/nesting, every non-set entry of the diff of '
+         'two well-formed values extends the root, its t1 is what the t1-side params lead to in t1 and its t2 what the t2-side params lead to in t2 (changed values/types, '
+         'added/removed dict and iterable items, moved items); set items are members; a folded add+remove takes t1/steps from the removed and t2 from an added entry with the same '
+         'rendered path; changed leaves differ. keyEq is proved an equivalence (dict lookup = Python semantics). Lean witness for finding F15. ' + _DIFFMODEL +
+         'On the implementation every entry is resolved with extract() against the inputs.',
+    design='5/C04',
+    note='Trusted: Lean kernel; path strings are tied to params by C09. Partial: "the two really differ" is proved for leaves, not for type_changes/threshold entries and not for folds (F15).',
+    technique='Lean 4 proof (mutual structural induction with index-offset invariants) + differential correspondence')
+CLAIMED['C10'] = dict(
+    text='Lean 4 theorems: the text view is exactly the tree filtered by the documented visibility table (one entry per visible tree entry, same categories, same path and payload), '
+         'at verbose_level 2 nothing is hidden, pretty() has one statement per change, and every node is backed by the inputs along its chain from the root (C04 theorem). '
+         + _DIFFMODEL + 'On the implementation the real tree is walked (object identity of t1/t2 with input sub-objects, up/down symmetry, root), to_dict(view_override) both ways, '
+         'json.loads(to_json()) categories/paths, pretty() statements counted, for ignore_order x report_repetition x verbosity.',
+    design='5/C10',
+    note='Trusted: Lean kernel; heap identity/pointers and JSON text validity are observed, not proved; ignore_order rows are implementation-only until that model is registered.',
+    technique='Lean 4 proof (list induction over the tree) + heap walk abstraction + differential correspondence')
+CLAIMED['C13'] = dict(
+    text='PARTIAL. Lean 4 lemmas: literal exclusion is exact membership of the level path, anchored regexes skip exactly at-or-below, reported entries never sit on a skipped level, an '
+         'excluded child contributes nothing; Lean witnesses for include with non-string keys (F10a/c) and the threshold leak (F10b). ' + _DIFFMODEL.replace('over generated pairs', 'under the same path options over generated pairs') +
+         'The pure-filter equation (restricted = filtered unrestricted; positional mode, threshold 0) is decided on the implementation for every existing path, singles and pairs, '
+         'exclude / regex / include; its Lean theorem is not proved yet.',
+    design='5/C13',
+    note='Trusted: Lean kernel; re module. The filter equation rests on evaluation. Known findings F10a, F10b, F10c.',
+    technique='Lean 4 lemmas + differential correspondence; filter equation by evaluation over all existing paths')
 NA = {}
 
 checks = []
